@@ -128,7 +128,7 @@ func packBytes(m socket.Message) string {
 }
 
 func TestC20Message(t *testing.T) {
-	rec := vt.NewRec(t, "C20", "message", "dirtying op sequence (every public setter, metadata add/set/del/parse, pipe append, context, body binder, unpack-from-frame with and without installing a binder, UnmarshalBody, pack) on a message, then Reset / PutMessage+GetMessage, then a generated next-user op sequence applied to the recycled message and to NewMessage(): all getters must agree after every step and the packed bytes must be identical; non-trivial = the dirtying sequence touched >=3 distinct field kinds; pool reuse is measured; distinct by both sequences")
+	rec := vt.NewRec(t, "C20", "message", "dirtying op sequence (every public setter, metadata add/set/del/parse, pipe append, context, body binder, unpack-from-frame with and without installing a binder, UnmarshalBody, pack) on a message, then Reset / PutMessage+GetMessage (or the dirtying sequence is applied as the settings of a GetMessage call whose last setting fails, followed by a plain GetMessage), then a generated next-user op sequence applied to the recycled message and to NewMessage(): all getters must agree after every step and the packed bytes must be identical; non-trivial = the dirtying sequence touched >=3 distinct field kinds; pool reuse is measured; distinct by both sequences")
 	reused, total := 0, 0
 	defer func() { rec.Note("message pool returned the dirtied object in %d of %d cases", reused, total) }()
 	old := debug.SetGCPercent(-1)
@@ -137,7 +137,7 @@ func TestC20Message(t *testing.T) {
 		vt.Init()
 		dirty := genMsgOps(t, "dirty", 12)
 		next := genMsgOps(t, "next", 6)
-		how := rapid.SampledFrom([]string{"reset", "pool"}).Draw(t, "how")
+		how := rapid.SampledFrom([]string{"reset", "pool", "pool", "failed-get"}).Draw(t, "how")
 		kinds := map[string]bool{}
 		for _, o := range dirty {
 			kinds[o.Kind] = true
@@ -147,16 +147,38 @@ func TestC20Message(t *testing.T) {
 			rec.Sample(map[string]interface{}{"dirty": dirty, "next": next, "how": how})
 		}
 		var m socket.Message
-		if how == "pool" {
+		switch how {
+		case "pool":
 			m = socket.GetMessage()
-		} else {
+		case "failed-get":
+			// GetMessage applies the caller's settings to a pooled message; the last setting
+			// fails (a pipe naming an unregistered filter panics, which the session methods
+			// recover): whatever the earlier settings wrote must not reach the next user
+			var settings []socket.MessageSetting
+			for _, o := range dirty {
+				o := o
+				settings = append(settings, func(m socket.Message) { applyMsgOp(m, o) })
+			}
+			settings = append(settings, socket.WithXferPipe(vt.UnregisteredXfer(t, "badpipe")))
+			func() {
+				defer func() { recover() }()
+				m = socket.GetMessage(settings...)
+			}()
+			if m != nil {
+				t.Fatalf("harness: GetMessage with a setting naming an unregistered filter did not fail")
+			}
+		default:
 			m = socket.NewMessage()
 		}
-		for _, o := range dirty {
-			applyMsgOp(m, o)
+		if m != nil {
+			for _, o := range dirty {
+				applyMsgOp(m, o)
+			}
 		}
 		var recycled socket.Message
-		if how == "pool" {
+		if how == "failed-get" {
+			recycled = socket.GetMessage()
+		} else if how == "pool" {
 			socket.PutMessage(m)
 			recycled = socket.GetMessage()
 			total++
